@@ -44,8 +44,8 @@ LAYOUT = {
     "zeros_like_keep",
 }
 NN_ALWAYS = {"abs", "zeros", "ones", "eye", "zeros_like", "ones_like", "norm", "exp", "shape", "ndim", "eps", "finfo", "py_len", "count_nonzero", "arange", "is_tensor", "square", "py_abs"}
-NN_IF_ALL_NN = {"dot", "matmul", "tensordot", "kron", "kr", "einsum", "sum", "max", "min", "mean", "prod", "cumsum", "trace", "sqrt", "maximum", "minimum", "py_sum", "py_max", "py_min", "py_int", "py_float", "py_round", "round", "ceil", "floor", "logsumexp"}
-ANY_ALWAYS = {"solve", "lstsq", "svd", "qr", "eigh", "partial_svd", "sign", "log", "log2", "sin", "cos", "tan", "randn", "digamma", "argmax", "argmin", "argsort"}
+NN_IF_ALL_NN = {"sign", "dot", "matmul", "tensordot", "kron", "kr", "einsum", "sum", "max", "min", "mean", "prod", "cumsum", "trace", "sqrt", "maximum", "minimum", "py_sum", "py_max", "py_min", "py_int", "py_float", "py_round", "round", "ceil", "floor", "logsumexp"}
+ANY_ALWAYS = {"solve", "lstsq", "svd", "qr", "eigh", "partial_svd", "log", "log2", "sin", "cos", "tan", "randn", "digamma", "argmax", "argmin", "argsort"}
 
 
 # O3 assumptions (DESIGN.md §3 C10): stated, not derived
